@@ -205,6 +205,36 @@ def run_case(case, sets=None):
                     break
                 except TrajectoryException:
                     pass
+    # a second object built from the very pose list of the first is another
+    # object: projecting the first must not reach it, and it can still be
+    # projected itself - onto another plane - from the original poses
+    if "only" not in case:
+        from evo.core.trajectory import PosePath3D, PoseTrajectory3D
+        ta, tsa = build(Rs[:6], ps[:6], case["ctor"], case["reads"])
+        lst = ta.poses_se3
+        tb = PoseTrajectory3D(poses_se3=lst, timestamps=ta.timestamps) \
+            if tsa is not None else PosePath3D(poses_se3=lst)
+        ta.project(Plane(plane))
+        other = {"xy": "yz", "yz": "xz", "xz": "xy"}[plane]
+        nd2 = PLANES[other]
+        try:
+            tb.project(Plane(other))
+            vb = common.views(tb)
+            for k in range(len(vb["poses"])):
+                keep = [d for d in range(3) if d != nd2]
+                if vb["poses"][k][nd2, 3] != 0.0 or not all(
+                        vb["poses"][k][d, 3] == ps[k][d] for d in keep):
+                    out.append((
+                        "a second object built from the same pose list, "
+                        "projected onto %s after the first was projected "
+                        "onto %s: pose %d is %s, original position %s" %
+                        (other, plane, k, vb["poses"][k][:3, 3].tolist(),
+                         ps[k].tolist()), {"kind": "shared-list"}, None))
+                    break
+        except TrajectoryException as e:
+            out.append(("a second object built from the same pose list "
+                        "could not be projected (%s)" % e,
+                        {"kind": "shared-list"}, None))
     # second projection is refused and changes nothing
     snap = common.snapshot(t)
     for p2 in ("xy", "xz", "yz"):
